@@ -9,6 +9,7 @@ interpretation model `Model/Gsd/Interp.lean` (typed AST → description | error 
 import ProfiVerif.Lemmas.GsdFaithful5
 import ProfiVerif.Model.Gsd.Peg
 import ProfiVerif.Lemmas.PegAst
+import ProfiVerif.Lemmas.PegFuel
 
 namespace PV.C19
 open PV.Gsd
@@ -134,8 +135,35 @@ example : (match parse "#Profibus_DP\nVendor_Name = \"x\" ; c\nModule = \"m\" 0x
     | _ => false) = true := by
   decide +kernel
 
-/-- NOT PROVED.  The PEG never runs out of its fuel bound `3·len + 1000`. -/
-def parse_fuel_full : Prop := ∀ text : Str, parse text ≠ none
+/-- The static recursion depth of the generated grammar is defined (no recursive rule, no repetition
+with a possibly empty body — the conditions pest's own validator imposes) and at most 1000; evaluated
+by the kernel, re-evaluated whenever Grammar.lean is regenerated. -/
+theorem fuel_checked : Peg.fuelCheck 1000 = true := by decide +kernel
+
+/-- **The PEG interpreter never runs out of fuel**: for **every** text the bound `3·len + 1000` used by
+`parse` suffices (`Peg.noFuelAt`, for an arbitrary grammar: `eval` needs at most
+`depth e + remaining length` levels of recursion, because every level either descends in the
+expression / rule nesting or is an iteration of a repetition whose body consumes input). -/
+theorem parse_fuel_full (text : Str) : parse text ≠ none := by
+  unfold parse
+  split
+  · next h => exact (Peg.parseGsd_fuel fuel_checked text h).elim
+  · simp
+  · split <;> simp
+
+/-- **C19, first half, for the model**: for every text the parser model returns a description (with
+warnings) or an error value. -/
+theorem parse_total (text : Str) :
+    (∃ d ws, parse text = some (.ok (d, ws))) ∨ (∃ e, parse text = some (.err e)) := by
+  have h1 := parse_no_panic_full text
+  have h2 := parse_fuel_full text
+  cases h : parse text with
+  | none => exact (h2 h).elim
+  | some r =>
+    cases r with
+    | ok v => exact .inl ⟨v.1, v.2, rfl⟩
+    | err e => exact .inr ⟨e, rfl⟩
+    | panic => exact (h1 h).elim
 
 /-! ### Non-vacuity -/
 
